@@ -70,6 +70,10 @@ CLAIMS['C08'] = ('Bounded symbolic model checking of the real Aberrations / Aber
 CLAIMS['C05'] = ('Bounded symbolic model checking on truncated power series: the REAL ray-trace code (generate_rays, Surface._trace_real, conic intersection, normals, refract/reflect, the sequential trace) is executed on series in the scale factor eps with symbolic coefficients; '
     'the limit statement becomes identities between coefficients (eps^0 = 0, eps^1 = paraxial value, eps^2 = 0) decided unsat by the solver: one-surface step for sphere/conic/plane/mirror from an arbitrary near-axis ray (induction over surfaces), and whole K=1..2 lenses against Paraxial.marginal_ray / chief_ray incl. the stop-centre clause.',
     'formal Taylor statement (limit and quadratic rate as eps -> 0); no finite-eps error bound; K<=2 monolithic, any K via the step contract; floats as reals; separated surfaces (t > 0)')
+CLAIMS['C09'] = ('Bounded symbolic model checking of the real Wavefront / OPD / OPDFan / RmsWavefrontErrorVsField / RayOperand.OPD_difference code, compositionally: (a) _opd_image_to_xp on an arbitrary ray and sphere returns a root of the sphere equation, the documented one, NaN exactly when the line misses; '
+    '(b) the whole Wavefront pipeline with the tracer and (a) uninterpreted: sphere centre = chief image point of the analysed field AND wavelength, radius to the axial paraxial exit pupil, W = (chief path - ray path)/(lambda mm), chief sample exactly 0; (c) the tilt term equals the lead of the start point the real RayGenerator uses (symbolic vignetting); '
+    '(d) rms / fan / rms-vs-field / operand are that quantity on the documented samples (recorded tracer calls).',
+    'tracer uninterpreted (its unit directions are C02); fields along y; lenses only supply the paraxial exit pupil (plane-surface slab, symbolic thicknesses/index); OPD maps (scipy griddata interpolation) not covered; floats as reals')
 NOT_YET = 'check not built yet in this round (work in progress; see DESIGN.md section 6 for the plan)'
 
 props = [json.loads(l) for l in open(os.path.join(ROOT, 'properties.jsonl'))]
